@@ -177,6 +177,10 @@ def run_case(base, case, acc, force_dense=False):
         if name == "model.solver=":
             acc.count("solver_switches")
         acc.add("interfaces", H.model.problem.__name__.split(".")[-1])
+        if name == "ctx.exit" and _exact_copy_mechanism(H, exc):
+            # from here on the history runs on a model the known optlang mechanism damaged
+            state["tainted"] = "C01/ctx.exit/readd-fails/glpk_exact-objects-of-glpk-class-after-copy"
+            acc.count("histories_tainted_by_known_optlang_mechanism")
         if not dense and k != n_steps and k != -1:
             acc.count("steps_unobserved_sparse")
             return True
@@ -195,8 +199,8 @@ def run_case(base, case, acc, force_dense=False):
             where = "raised" if exc is not None else "ok"
             ctx = "in-context" if H.entered else "no-context"
             key = f"C01/{name}/{cls}/{where}/{ctx}"
-            if name == "ctx.exit" and _exact_copy_mechanism(H, exc):
-                key = "C01/ctx.exit/readd-fails/glpk_exact-objects-of-glpk-class-after-copy"
+            if state.get("tainted"):
+                key = state["tainted"]
             acc.violation(
                 key,
                 f"after {name} ({where}, {ctx}) the solver problem is not the model's FBA problem: {probs[0]}",
